@@ -122,13 +122,23 @@ func (sf statefulSymlinkFactory) LookupSymlink(target path.Parser) (virtual.Link
 
 // fetcher is an InitialContentsFetcher with fixed children that fails while
 // *fail is set.
+//
+// When gate is set, FetchContents first announces itself on entered and then
+// waits for the gate: the directory that is being initialised keeps its lock
+// for that long (concurrent-listing mode).
 type fetcher struct {
 	children map[path.Component]virtual.InitialChild
 	fail     *bool
 	fetched  int
+	gate     chan struct{}
+	entered  chan struct{}
 }
 
 func (f *fetcher) FetchContents(fileReadMonitorFactory virtual.FileReadMonitorFactory) (map[path.Component]virtual.InitialChild, error) {
+	if g := f.gate; g != nil {
+		close(f.entered)
+		<-g
+	}
 	if *f.fail {
 		return nil, errInjected
 	}
